@@ -107,30 +107,64 @@ Definition unique_protoclusters (rloc : loc) (protos : list feat) : list feat :=
   if negb (bridges rloc) then sort_by coll_lt (sort_by pre_key_lt protos)
   else sort_by (wrapped_key_lt (pe (first_part rloc))) protos.
 
+(* the set built by the first three lines of get_unique_protoclusters:
+     clusters = set(); for candidate in candidates: clusters.update(candidate.protoclusters)
+   members: the protoclusters of the candidate clusters of the region, concatenated in the order of the
+   candidates, a protocluster shared by several candidates occurring several times.  A Protocluster has no
+   __eq__/__hash__ of its own, so the set de-duplicates by object identity; fid IS that identity (one number per
+   object, the harness numbers the objects).  The iteration order of the set (identity hashes) is an input:
+   order lists the identities in the order in which the set yields them; an identity missing from order comes
+   after the listed ones (the sort is stable), so that proto_set is total and always a permutation of the
+   de-duplicated members *)
+Fixpoint dedupe_fid (l : list feat) : list feat :=
+  match l with
+  | [] => []
+  | f :: rest => f :: filter (fun x => negb (fid x =? fid f)) (dedupe_fid rest)
+  end.
+
+Fixpoint rank (order : list Z) (i : Z) : Z :=
+  match order with
+  | [] => 0
+  | x :: rest => if x =? i then 0 else 1 + rank rest i
+  end.
+
+Definition proto_set (order : list Z) (members : list feat) : list feat :=
+  sort_by (fun a b => rank order (fid a) <? rank order (fid b)) (dedupe_fid members).
+
+(* Region.get_unique_protoclusters as a whole *)
+Definition get_unique_protoclusters (rloc : loc) (order : list Z) (members : list feat) : list feat :=
+  unique_protoclusters rloc (proto_set order members).
+
 (* ---------- Area ---------- *)
+(* a_tool: the number standing for Area.tool (0 = empty string).  The harness gives every protocluster and
+   every sub-region its own tool string t<fid>, so a_tool carries the identity of the drawn object into the
+   output; a candidate cluster has no tool, its identity is its number in a_prod ("CC <n>: kind") *)
 Record area := mkArea { a_kind : Z; a_start : Z; a_end : Z; a_ns : Z; a_ne : Z;
-                        a_height : Z; a_group : Z; a_prod : Z }.
+                        a_height : Z; a_group : Z; a_prod : Z; a_tool : Z }.
+
+(* feature.tool as a number: result.tool is set for protoclusters and (not sideloaded) sub-regions only *)
+Definition ftool (f : feat) : Z := if fkind f =? K_Cand then 0 else fid f.
 
 Definition from_feature (f : feat) (height : Z) : area :=
   match fcore f with
   | Some core =>
     if fkind f =? K_Proto
-    then mkArea (fkind f) (loc_fstart core) (loc_fend core) (fstart f) (fend f) height 0 (fprod f)
-    else mkArea (fkind f) (fstart f) (fend f) (fstart f) (fend f) height 0 (fprod f)
-  | None => mkArea (fkind f) (fstart f) (fend f) (fstart f) (fend f) height 0 (fprod f)
+    then mkArea (fkind f) (loc_fstart core) (loc_fend core) (fstart f) (fend f) height 0 (fprod f) (ftool f)
+    else mkArea (fkind f) (fstart f) (fend f) (fstart f) (fend f) height 0 (fprod f) (ftool f)
+  | None => mkArea (fkind f) (fstart f) (fend f) (fstart f) (fend f) height 0 (fprod f) (ftool f)
   end.
 
 Definition area_crosses (a : area) : bool := a_ne a <? a_ns a.
 
-Definition set_start (a : area) (v : Z) := mkArea (a_kind a) v (a_end a) (a_ns a) (a_ne a) (a_height a) (a_group a) (a_prod a).
-Definition set_end (a : area) (v : Z) := mkArea (a_kind a) (a_start a) v (a_ns a) (a_ne a) (a_height a) (a_group a) (a_prod a).
-Definition set_ns (a : area) (v : Z) := mkArea (a_kind a) (a_start a) (a_end a) v (a_ne a) (a_height a) (a_group a) (a_prod a).
-Definition set_ne (a : area) (v : Z) := mkArea (a_kind a) (a_start a) (a_end a) (a_ns a) v (a_height a) (a_group a) (a_prod a).
-Definition set_group (a : area) (v : Z) := mkArea (a_kind a) (a_start a) (a_end a) (a_ns a) (a_ne a) (a_height a) v (a_prod a).
-Definition set_prod (a : area) (v : Z) := mkArea (a_kind a) (a_start a) (a_end a) (a_ns a) (a_ne a) (a_height a) (a_group a) v.
+Definition set_start (a : area) (v : Z) := mkArea (a_kind a) v (a_end a) (a_ns a) (a_ne a) (a_height a) (a_group a) (a_prod a) (a_tool a).
+Definition set_end (a : area) (v : Z) := mkArea (a_kind a) (a_start a) v (a_ns a) (a_ne a) (a_height a) (a_group a) (a_prod a) (a_tool a).
+Definition set_ns (a : area) (v : Z) := mkArea (a_kind a) (a_start a) (a_end a) v (a_ne a) (a_height a) (a_group a) (a_prod a) (a_tool a).
+Definition set_ne (a : area) (v : Z) := mkArea (a_kind a) (a_start a) (a_end a) (a_ns a) v (a_height a) (a_group a) (a_prod a) (a_tool a).
+Definition set_group (a : area) (v : Z) := mkArea (a_kind a) (a_start a) (a_end a) (a_ns a) (a_ne a) (a_height a) v (a_prod a) (a_tool a).
+Definition set_prod (a : area) (v : Z) := mkArea (a_kind a) (a_start a) (a_end a) (a_ns a) (a_ne a) (a_height a) (a_group a) v (a_tool a).
 
 Definition area_offset (a : area) (d : Z) : area :=
-  mkArea (a_kind a) (a_start a + d) (a_end a + d) (a_ns a + d) (a_ne a + d) (a_height a) (a_group a) (a_prod a).
+  mkArea (a_kind a) (a_start a + d) (a_end a + d) (a_ns a + d) (a_ne a + d) (a_height a) (a_group a) (a_prod a) (a_tool a).
 
 (* clone(): both the original and the copy carry the group id (g = id(self), never 0) *)
 Definition with_group (a : area) (g : Z) : area := if a_group a =? 0 then set_group a g else a.
@@ -225,6 +259,12 @@ Definition build_area_rows (rloc : loc) (record_length : Z) (circular : bool)
   do r2 <- add_rows rloc record_length extend height st proto_rows;
   Ok (fst (fst r2)).
 
+(* build_area_rows on a Region object: the protoclusters come from region.get_unique_protoclusters(), i.e. from
+   the candidate clusters (build_area_rows above takes the set in its iteration order and sorts it) *)
+Definition build_area_rows_region (rloc : loc) (record_length : Z) (circular : bool)
+  (subs cands : list feat) (order : list Z) (members : list feat) : res (list area) :=
+  build_area_rows rloc record_length circular subs cands (proto_set order members).
+
 (* ---------- js.convert_regions / convert_cds_features: coordinate fields ---------- *)
 Record orf := mkOrf { o_start : Z; o_end : Z; o_strand : Z; o_group : Z }.
 
@@ -311,11 +351,47 @@ Fixpoint count_drawn (n : Z) (k : Z) (l : list area) : option Z :=
 
 Definition count_kind (k : Z) (fs : list feat) : Z := zlen (filter (fun f => fkind f =? k) fs).
 
+(* ---- drawn exactly once, by identity ---- *)
+(* the identity of a feature and the identity an area carries: candidate clusters by their number (the product
+   string "CC <n>: kind"), protoclusters and sub-regions by their tool string *)
+Definition feat_tag (f : feat) : Z := if fkind f =? K_Cand then fprod f else fid f.
+Definition area_tag (a : area) : Z := if a_kind a =? K_Cand then a_prod a else a_tool a.
+Definition same_key (f : feat) (a : area) : bool := (a_kind a =? fkind f) && (area_tag a =? feat_tag f).
+
+(* the areas drawn for the feature, in the order of the output *)
+Definition occurrences (f : feat) (out : list area) : list area := filter (same_key f) out.
+
+(* exactly one area without a group, or exactly two halves: same non-zero group, same height, the first one
+   ending at the record end, the second one starting at 0 *)
+Definition drawn_once_ok (n : Z) (out : list area) (f : feat) : bool :=
+  match occurrences f out with
+  | [a] => a_group a =? 0
+  | [a; b] => negb (a_group a =? 0) && (a_group b =? a_group a) && (a_height b =? a_height a)
+              && (a_ne a =? n) && (a_ns b =? 0)
+  | _ => false
+  end.
+
+(* every expected feature is drawn exactly once (or as two halves), and nothing else is drawn *)
+Definition identity_ok (n : Z) (expected : list feat) (out : list area) : bool :=
+  forallb (drawn_once_ok n out) expected &&
+  forallb (fun a => existsb (fun f => same_key f a) expected) out.
+
+(* halves are linked PAIRWISE: a non-zero group value occurs on exactly two areas of the output *)
+Definition group_size (g : Z) (out : list area) : Z := zlen (filter (fun a => a_group a =? g) out).
+Definition groups_pairwise (out : list area) : bool :=
+  forallb (fun a => (a_group a =? 0) || (group_size (a_group a) out =? 2)) out.
+
+(* what a region has to show: the candidate clusters that are drawn, the sub-regions, and every protocluster of
+   every candidate cluster once (by identity) *)
+Definition expected_features (subs cands members : list feat) : list feat :=
+  filter (fun c => nonempty subs || negb (fsingle c)) cands ++ subs ++ dedupe_fid members.
+
 (* verdict: [all_ok; extent_ok; disjoint_ok; complete_ok; chain_ok_protoclusters_and_subregions;
-             chain_ok_candidates]
+             chain_ok_candidates; identity_ok; groups_pairwise]
    (the finding classes core_side_heuristic and candidate_end_unshifted were repaired in the code: no
    class flag is computed any more, a failing chain is a violation) *)
-Definition spec_areas (rloc : loc) (n : Z) (circ : bool) (subs cands protos : list feat) (out : list area) : list Z :=
+Definition spec_areas (rloc : loc) (n : Z) (circ : bool) (subs cands members : list feat) (out : list area) : list Z :=
+  let protos := dedupe_fid members in
   let rng := range0 rloc n in
   let include := filter (fun c => nonempty subs || negb (fsingle c)) cands in
   let e := forallb (extent_ok rng) out in
@@ -327,7 +403,10 @@ Definition spec_areas (rloc : loc) (n : Z) (circ : bool) (subs cands protos : li
            end in
   let ch := forallb (fun a => (a_kind a =? K_Cand) || chain_ok a) out in
   let chc := forallb (fun a => negb (a_kind a =? K_Cand) || chain_ok a) out in
-  eBool (e && d && c && ch && chc) ++ eBool e ++ eBool d ++ eBool c ++ eBool ch ++ eBool chc.
+  let idn := identity_ok n (expected_features subs cands members) out in
+  let grp := groups_pairwise out in
+  eBool (e && d && c && ch && chc && idn && grp) ++ eBool e ++ eBool d ++ eBool c ++ eBool ch ++ eBool chc
+  ++ eBool idn ++ eBool grp.
 
 (* rows returned by pack: pairwise non-overlapping contents, and all areas placed exactly once
    (ids of the rows, concatenated and sorted, are the ids of the input, sorted) *)
@@ -387,7 +466,7 @@ Definition dFeat : dec feat := fun l =>
 
 Definition dArea : dec area := fun l =>
   match l with
-  | k :: s :: e :: ns :: ne :: h :: g :: p :: r => Some (mkArea k s e ns ne h g p, r)
+  | k :: s :: e :: ns :: ne :: h :: g :: p :: t :: r => Some (mkArea k s e ns ne h g p t, r)
   | _ => None
   end.
 Definition dOrf : dec orf := fun l =>
@@ -395,15 +474,16 @@ Definition dOrf : dec orf := fun l =>
 Definition dRowOut : dec (Z * Z * list Z) := dPair (dPair dZ dZ) (dList dZ).
 
 Definition eArea (a : area) : list Z :=
-  [a_kind a; a_start a; a_end a; a_ns a; a_ne a; a_height a; a_group a; a_prod a].
+  [a_kind a; a_start a; a_end a; a_ns a; a_ne a; a_height a; a_group a; a_prod a; a_tool a].
 Definition eAreas (l : list area) : list Z := eList eArea l.
 Definition eOrf (o : orf) : list Z := [o_start o; o_end o; o_strand o; o_group o].
 Definition eRow (r : row) : list Z := [r_start r; r_end r] ++ eList (fun f => [fid f]) (r_contents r).
 Definition eRows (l : list row) : list Z := eList eRow l.
 
-(* payload of build_area_rows: N circular region_loc subs cands protos *)
-Definition dRegion : dec (Z * bool * loc * list feat * list feat * list feat) :=
-  dPair (dPair (dPair (dPair (dPair dZ dBool) dLoc) (dList dFeat)) (dList dFeat)) (dList dFeat).
+(* payload of build_area_rows: N circular region_loc subs cands members order
+   (members: the protoclusters of the candidate clusters, concatenated; order: identities in set order) *)
+Definition dRegion : dec (Z * bool * loc * list feat * list feat * list feat * list Z) :=
+  dPair (dPair (dPair (dPair (dPair (dPair dZ dBool) dLoc) (dList dFeat)) (dList dFeat)) (dList dFeat)) (dList dZ).
 
 (* result ::= 0 value | 1 kind *)
 Definition dResHead (l : list Z) : option (option Z * list Z) :=
@@ -421,14 +501,14 @@ Definition run_C19 (fn : Z) (l : list Z) : list Z :=
     | _ => bad_input end
   | 2 => (* build_area_rows *)
     match dRegion l with
-    | Some ((n, circ, rloc, subs, cands, protos), []) =>
-      eRes eAreas (build_area_rows rloc n circ subs cands protos)
+    | Some ((n, circ, rloc, subs, cands, members, order), []) =>
+      eRes eAreas (build_area_rows_region rloc n circ subs cands order members)
     | _ => bad_input end
   | 3 => (* convert_regions: start, end, orfs, clusters of one region *)
     match dPair dRegion (dList dLoc) l with
-    | Some ((n, circ, rloc, subs, cands, protos, genes), []) =>
+    | Some ((n, circ, rloc, subs, cands, members, order, genes), []) =>
       eRes (fun r => let '(s, e, orfs, areas) := r in [s; e] ++ eList eOrf orfs ++ eAreas areas)
-           (convert_region rloc n circ subs cands protos genes)
+           (convert_region rloc n circ subs cands (proto_set order members) genes)
     | _ => bad_input end
   | 11 => (* spec of pack on the implementation's output *)
     match dPair dZ (dList dFeat) l with
@@ -443,24 +523,24 @@ Definition run_C19 (fn : Z) (l : list Z) : list Z :=
     | _ => bad_input end
   | 12 => (* spec of build_area_rows on the implementation's output *)
     match dRegion l with
-    | Some ((n, circ, rloc, subs, cands, protos), out) =>
+    | Some ((n, circ, rloc, subs, cands, members, order), out) =>
       match dResHead out with
-      | Some (Some _, []) => [1; 1; 1; 1; 1; 1]
+      | Some (Some _, []) => [1; 1; 1; 1; 1; 1; 1; 1]
       | Some (None, r) =>
         match dList dArea r with
-        | Some (areas, []) => spec_areas rloc n circ subs cands (unique_protoclusters rloc protos) areas
+        | Some (areas, []) => spec_areas rloc n circ subs cands members areas
         | _ => bad_input end
       | _ => bad_input end
     | _ => bad_input end
   | 13 => (* spec of convert_regions on the implementation's output *)
     match dPair dRegion (dList dLoc) l with
-    | Some ((n, circ, rloc, subs, cands, protos, genes), out) =>
+    | Some ((n, circ, rloc, subs, cands, members, order, genes), out) =>
       match dResHead out with
-      | Some (Some _, []) => [1; 1; 1; 1; 1; 1; 1; 0; 0]
+      | Some (Some _, []) => [1; 1; 1; 1; 1; 1; 1; 1; 1; 0; 0]
       | Some (None, s :: e :: r) =>
         match dPair (dList dOrf) (dList dArea) r with
         | Some ((orfs, areas), []) =>
-          spec_areas rloc n circ subs cands (unique_protoclusters rloc protos) areas
+          spec_areas rloc n circ subs cands members areas
           ++ eBool (spec_orfs (s, e) (bridges rloc) orfs) ++ eBool (class_gene_gap rloc genes)
           ++ eBool (class_gene_long_way rloc n genes)
         | _ => bad_input end
